@@ -863,6 +863,7 @@ def rule_MF(run: Run) -> RuleResult:
             t = _re.sub(r"getattr\((?:self|Child\(<instance>\)|" + CLS + r"),NAME(?:,Const\(None\))?\)", "MEMBER", t)
             return t
         per_op = {}
+        foreign = {}
         for k_, (fl_, ln_, sn_) in forms.items():
             cls_, mn_ = (mix, "__init__") if k_.endswith("__init__") else (meta, k_.rsplit(".", 1)[-1])
             ps_ = analyse_method(Ctx(repo), cls_, mn_) if cls_ is meta else _af(Ctx(repo), cls_.module, cls_.methods[mn_], cls=cls_)
@@ -874,8 +875,13 @@ def rule_MF(run: Run) -> RuleResult:
                 # a comprehension keeps an element exactly when its filter holds
                 conds_ += [(e.text, True, e.target.key()) for e in p_.events if e.kind == "filter" and e.target is not None]
                 at_ = {norm(a): v for a, v in _Fr.atoms(conds_).items() if "MEMBER" in norm(a) or "NAME" in norm(a) or "call:dir(" in a}
-                proc = any(((e.kind == "op" and e.op in ("evaluate", "validate", "keys", "explain")) or (e.kind == "call" and e.text in ("evaluate", "validate", "keys", "explain")))
-                           and e.target is not None and norm(e.target.key()) == "MEMBER" and not e.failed for e in p_.events)
+                opev = [e for e in p_.events if ((e.kind == "op" and e.op in ("evaluate", "validate", "keys", "explain")) or (e.kind == "call" and e.text in ("evaluate", "validate", "keys", "explain")))
+                        and e.target is not None and not e.failed]
+                proc = any(norm(e.target.key()) == "MEMBER" for e in opev)
+                for e in opev:
+                    tk_ = norm(e.target.key())
+                    if tk_ != "MEMBER" and not _re.fullmatch(CLS, e.target.key()):
+                        foreign.setdefault(k_, set()).add(tk_[:80])
                 rows.append((at_, proc))
             per_op[k_] = rows
         universe = sorted({a for rows in per_op.values() for at_, _ in rows for a in at_})
@@ -889,12 +895,28 @@ def rule_MF(run: Run) -> RuleResult:
                 asg = dict(zip(universe, combo))
                 tab.append(any(proc and all(asg[a] == v for a, v in at_.items()) for at_, proc in rows))
             tables[k_] = tuple(tab)
-        return tables, universe
+        return tables, universe, foreign
     by_paths = None
     ref = None
     for k, (flt, ln, sn) in forms.items():
         if len(flt) != 1:
-            res.add(f"labrea.datasetclass.{k}:one member enumeration over dir(...)", False, f, ln, f"{len(flt)} enumerations", nec)
+            # not one loop in the method's own text (helpers, several passes): judged on the interpreter's paths — every
+            # operation the method issues is issued on a member drawn from dir(class), under the siblings' conditions
+            if by_paths is None:
+                by_paths = path_table() or False
+            okp, how = False, f"{len(flt)} enumerations"
+            if by_paths:
+                tabs, uni, foreign_ = by_paths
+                first = next(iter(forms))
+                okp = k in tabs and any(tabs[k]) and not foreign_.get(k)
+                how = (f"on the interpreter's paths every operation is issued on a member drawn from dir(class) (truth table over {uni})" if okp
+                       else f"operations also issued on {sorted(foreign_.get(k, []))}" if foreign_.get(k) else "no member is processed on any path")
+                res.add(f"labrea.datasetclass.{k}:one member enumeration over dir(...)", okp, f, ln, how, nec)
+                same = okp and first in tabs and tabs[k] == tabs[first]
+                res.add(f"labrea.datasetclass.{k}:same member source and predicate as its siblings", same, f, ln,
+                        f"on the interpreter's paths the member is processed under the same conditions as in {first}" if same else "conditions differ from " + first, nec)
+            else:
+                res.add(f"labrea.datasetclass.{k}:one member enumeration over dir(...)", False, f, ln, how, nec)
             continue
         src, formula = flt[0]
         src_n = "CLASS" if src in (sn, f"{sn}.__class__", "self.__class__", "cls", "type(self)") else src
@@ -907,7 +929,7 @@ def rule_MF(run: Run) -> RuleResult:
             if by_paths is None:
                 by_paths = path_table() or False
             if by_paths:
-                tabs, uni = by_paths
+                tabs, uni, _fg = by_paths
                 first = next(iter(forms))
                 if k in tabs and first in tabs and tabs[k] == tabs[first] and any(tabs[k]):
                     same = True
@@ -941,8 +963,24 @@ def rule_MF(run: Run) -> RuleResult:
             "no operation stores state on the class" if not memo_bad else
             f"{memo_bad[0][0]}() stores cls.{memo_bad[0][1]} and {memo_bad[0][2]}() tests for it through the MRO (hasattr / getattr with a default): a derived class inherits the base's memo", nec)
     want_atoms = {"isinstance(MEMBER, Evaluatable)", "NAME.startswith('__')"}
-    res.add("labrea.datasetclass:members are the Evaluatable attributes that are not dunder names", set(atoms) == want_atoms, f, 1,
-            f"predicate atoms {sorted(atoms)}", nec)
+    ok_atoms = set(atoms) == want_atoms
+    how_atoms = f"predicate atoms {sorted(atoms)}"
+    if not ok_atoms:
+        # the predicate as the interpreter's paths decide it (helpers, hoisted constants): processed exactly when the
+        # attribute is an Evaluatable and its name does not start with the dunder prefix, in every operation
+        if by_paths is None:
+            by_paths = path_table() or False
+        if by_paths:
+            tabs, uni, _fg = by_paths
+            A1, A2 = "call:isinstance(MEMBER,class<labrea.types.Evaluatable>)", "call:startswith(NAME,Const('__'))"
+            if set(uni) == {A1, A2}:
+                import itertools as _it2
+                want_tab = tuple(dict(zip(uni, combo))[A1] and not dict(zip(uni, combo))[A2] for combo in _it2.product([False, True], repeat=len(uni)))
+                ok_atoms = all(t_ == want_tab for t_ in tabs.values())
+                how_atoms = f"on the interpreter's paths: processed iff {A1} and not {A2}" if ok_atoms else f"truth tables {tabs} over {uni}"
+            else:
+                how_atoms = f"path atoms {uni}"
+    res.add("labrea.datasetclass:members are the Evaluatable attributes that are not dunder names", ok_atoms, f, 1, how_atoms, nec)
     from .facts import bool_atoms, eval_bool
     eq = mix.methods.get("__eq__")
     rp = mix.methods.get("__repr__")
@@ -1010,16 +1048,32 @@ def rule_MF(run: Run) -> RuleResult:
         c0, o0 = astu.first_param(ev), astu.param_names(ev)[0]
         ok = bool(eps_) and all(p.status == "ret" and p.ret is not None and p.ret.key() == f"call:{c0}({o0})" for p in eps_)
     res.add("labrea.datasetclass._DatasetClassMeta.evaluate:instantiates with the options", ok, f, ev.lineno if ev else 0, "", nec)
-    sets = [c for c in astu.calls_in(init) if astu.short_name(c) == "setattr"]
-    amap_i = astu.single_assign_map(init)
-    ok = len(sets) == 1 and len(sets[0].args) == 3 and ast.unparse(sets[0].args[0]) == "self"
-    if ok:
-        v = astu.expand_locals(sets[0].args[2], amap_i, keep=frozenset(astu.param_names(init)))
-        # the member's value is requested through its evaluate() (calling a dataset class instantiates
-        # it directly, bypassing the request)
-        ok = isinstance(v, ast.Call) and isinstance(v.func, ast.Attribute) and v.func.attr == "evaluate" and len(v.args) == 1 \
-            and astu.norm_opts(v.args[0]) == astu.param_names(init)[0]
-    res.add("labrea.datasetclass._DatasetClassMixin.__init__:every evaluatable member set to its evaluation", ok, f, init.lineno, f"{[ast.unparse(c) for c in sets]}", nec)
+    # the member's value is requested through its evaluate() with the instance's options (calling a dataset class
+    # instantiates it directly, bypassing the request) and stored on the instance under the member's own name — read off
+    # the paths: every setattr on the instance is setattr(self, NAME, MEMBER.evaluate(options)), and every path that
+    # evaluates a member stores it
+    import re as _re3
+    CLS3 = r"(?:attr:__class__\(self\)|classof\(self\)|call:type\(self\)|self)"
+    NAME3 = r"elem\(call:dir\(" + CLS3 + r"\)\)"
+    ok = bool(ips)
+    seen_set = []
+    for p in ips:
+        sets_ = [e for e in p.events if e.kind == "store" and e.text.startswith("setattr(") and e.args and e.args[0].key() == "self"]
+        evs_ = [e for e in p.events if e.kind == "call" and e.text == "evaluate" and e.target is not None and _re3.fullmatch(r"getattr\(" + CLS3 + "," + NAME3 + r"(?:,Const\(None\))?\)", e.target.key())]
+        for e in sets_:
+            nm_ = e.args[1].key() if len(e.args) > 1 else ""
+            tk_ = e.target.key() if e.target is not None else ""
+            # (the options, or the empty dictionary that stands in for them on a path that found them falsy)
+            empty_ok = Frame.atoms(p.conds).get(optp) is False
+            good = bool(_re3.fullmatch(NAME3, nm_)) and bool(_re3.fullmatch(r"call:evaluate\(getattr\(" + CLS3 + "," + _re3.escape(nm_) + r"(?:,Const\(None\))?\),(?:" + _re3.escape(optp)
+                                                                   + (r"|dict\{\}" if empty_ok else "") + r")\)", tk_))
+            seen_set.append(f"setattr(self, {nm_[:30]}, {tk_[:60]})")
+            ok = ok and good
+        if evs_ and not sets_:
+            ok = False
+            seen_set.append("a member is evaluated and not stored")
+    ok = ok and bool(seen_set)
+    res.add("labrea.datasetclass._DatasetClassMixin.__init__:every evaluatable member set to its evaluation", ok, f, init.lineno, f"{sorted(set(seen_set))[:3]}", nec)
     mi = meta.methods.get("__init__")
     ok = mi is not None
     if ok:
